@@ -272,3 +272,45 @@ fn aimd_deposit_linearizable() {
     assert!(lim >= mn && lim <= mx, "[C08.aimd_limit_bounds] dynamic maximum stays within [min_budget, max_budget]");
     kani::cover!(unsafe { GH.interfered } == 2, "two interferences during deposit");
 }
+
+// ------------------------------------------------------------------ configuration
+/// The values given to the public builders are the ones the budgets use: initial
+/// balance / maximum, cost of a retry, amount credited per success (no interference
+/// here: this is about plumbing, not atomicity).
+#[kani::proof]
+#[kani::unwind(4)]
+fn aimd_builder_is_faithful() {
+    let min: usize = kani::any();
+    let max: usize = kani::any();
+    let dep: usize = kani::any();
+    let wd: usize = kani::any();
+    kani::assume(min <= max && max <= 1024 && dep >= 1 && dep <= 8 && wd >= 1 && wd <= 8 && wd <= max);
+    let b = RetryBudgetBuilder::new().aimd().min_budget(min).max_budget(max).deposit_amount(dep).withdraw_amount(wd).build();
+    assert!(b.balance() == max, "[C08.config_max_budget_used] the budget starts full at the configured maximum");
+    assert!(b.try_withdraw() && b.balance() == max - wd, "[C08.config_withdraw_amount_used] a granted retry costs exactly the configured withdraw_amount");
+    b.deposit();
+    let expect = if max - wd + dep > max { max } else { max - wd + dep };
+    assert!(b.balance() == expect, "[C08.config_deposit_amount_used] a success credits exactly the configured deposit_amount, capped at the maximum");
+    std::mem::forget(b);
+}
+
+#[kani::proof]
+#[kani::unwind(4)]
+fn token_bucket_builder_is_faithful() {
+    let max: usize = kani::any();
+    let init: usize = kani::any();
+    let set_init: bool = kani::any();
+    kani::assume(max >= 1 && max <= 1024 && init <= max);
+    let mut tb = RetryBudgetBuilder::new().token_bucket().max_tokens(max);
+    if set_init {
+        tb = tb.initial_tokens(init);
+    }
+    let b = tb.build();
+    let start = if set_init { init } else { max };
+    assert!(b.balance() == start, "[C08.config_initial_tokens_used] the bucket starts with the configured initial tokens (default: full)");
+    let granted = b.try_withdraw();
+    assert!(granted == (start >= 1) && b.balance() == start - granted as usize, "[C08.retry_costs_one_token] a retry is granted iff a whole token is there and costs exactly one");
+    b.deposit();
+    assert!(b.balance() <= max, "[C08.config_max_tokens_used] deposits never lift the balance above the configured maximum");
+    std::mem::forget(b);
+}
